@@ -237,7 +237,14 @@ def c03_cases(rng, tier):
                  '    নাম ভিতর%s = %s * ১০;' % (bn(cnt[0]), v)]
             for _ in range(rng.randint(0, 3)):
                 k = rng.random()
-                if k < 0.25:
+                if k < 0.1:
+                    # an explicit continue written directly after the '}' of a chain or of a bare block (everything after it
+                    # in the body is dead); the loop's own closing continue is the one after the body's '}'
+                    if rng.random() < 0.5:
+                        b += ind(['যদি %s == ১ {' % v, '    _দেখাও "c";', '} অথবা {', '    _দেখাও "d";', '}', 'আবার;', '_দেখাও "মৃত";'])
+                    else:
+                        b += ind(['{', '    নাম ব্লক২ = %s;' % v, '    _দেখাও ব্লক২;', '}', 'আবার;', '_দেখাও "মৃত";'])
+                elif k < 0.25:
                     nest = rng.randint(1, 3)
                     op = rng.choice(['থামাও;', 'আবার;'])
                     cond = rng.choice(['%s == ১' % v, '%s == ২' % v, T, F, '%s %% ২ == ০' % v])
@@ -528,7 +535,10 @@ def c18_cases(rng, tier):
 FAULTS = [('type', '১ + "a"'), ('type', '"a" * ২'), ('type', '-"a"'), ('type', '!১'), ('type', 'সত্য & ১'), ('type', '১ < "a"'), ('undecl', 'অজানা'), ('undecl', 'অজানা()'),
           ('builtin', '_লিস্ট-লেন(১)'), ('builtin', '_সংখ্যা("abc")'), ('builtin', '_স্ট্রিং("a")'), ('builtin', '_লিস্ট-পপ([১], ৫)'), ('index', 'তা[৫]'), ('index', 'তা[-১]'), ('index', 'তা[০ / ০]'),
           ('key', 'রে["নাই"]'), ('user', '_এরর("বার্তা এক")'), ('user', '_এরর("")'), ('user', '_এরর(১)'), ('call', 'তা()'), ('index', 'তা["k"]'), ('index', 'রে[০]'), ('index', '১[০]'),
-          ('builtin', '_রিড-ফাইল("নাই.txt")'), ('print', 'শূ')]
+          ('builtin', '_রিড-ফাইল("নাই.txt")'), ('print', 'শূ'),
+          # positions exactly at and just past the ends of a list (তা has two elements)
+          ('builtin', '_লিস্ট-পপ(তা, ২)'), ('builtin', '_লিস্ট-পপ([১], ১)'), ('builtin', '_লিস্ট-পপ([], ০)'), ('builtin', '_লিস্ট-পপ(তা, _লিস্ট-লেন(তা))'),
+          ('builtin', '_লিস্ট-পুশ(তা, ৩, ০)'), ('builtin', '_লিস্ট-পুশ(তা, -১, ০)'), ('builtin', '_লিস্ট-পুশ([], ১, ০)'), ('index', 'তা[২]'), ('index', 'তা[_লিস্ট-লেন(তা)]')]
 
 
 def c13_cases(rng, tier):
@@ -539,6 +549,8 @@ def c13_cases(rng, tier):
     combos = [(f, s, d, m) for f in FAULTS for s in shapes for d in depths for m in (False, True)]
     if tier != 'thorough': combos = rng.sample(combos, 400)
     else: combos = rng.sample(combos, 2500)
+    # every fault at least once in the plainest position, whatever the seed
+    combos = [(f, 'decl', 0, False) for f in FAULTS if f[0] != 'print'] + [(f, 'print', 1, False) for f in FAULTS] + combos
     for (fk, fe), shape, depth, inmod in combos:
         if shape == 'print': st = ['দেখাও %s;' % fe]
         elif shape == 'printn': st = ['_দেখাও %s;' % fe]
@@ -584,6 +596,19 @@ def c13_cases(rng, tier):
                         cases.append({'src': prog(['দেখাও "মূল";', 'মডিউল ম = "mods/lib.pakhi";']), 'files': [('mods/lib.pakhi', prog(pre + body + ['দেখাও "পরে";']))], 'kind': 'fault nonbool-cond module'})
                     else:
                         cases.append({'src': prog(pre + body + ['দেখাও "পরে";']), 'kind': 'fault nonbool-cond'})
+    # a name declared in an iteration that was abandoned by a mid-body continue (or in a block left by break / return) is
+    # undeclared afterwards: using it is a located runtime error, not a stale value
+    for nest in (1, 2, 3):
+        for where in ('top', 'func', 'module'):
+            for leave in ('আবার;', 'থামাও;'):
+                inner = ['নাম বার্তা = "প্রথম";', 'দেখাও বার্তা;', leave]
+                for j in range(nest - 1): inner = ['যদি সত্য {'] + ind(inner) + ['}']
+                body = ['নাম i = ০;', 'লুপ {', '    i = i + ১;', '    যদি i > ৩ {', '        থামাও;', '    }', '    যদি i == ১ {'] + ind(inner, 2) + ['    }', '    দেখাও i;', '    দেখাও বার্তা;', '} আবার;', 'দেখাও "লুপের পরে";', 'দেখাও বার্তা;', 'দেখাও "শেষ";']
+                if where == 'func': body = ['ফাং কাজ() {'] + ind(body) + ['} ফেরত;', 'কাজ();', 'দেখাও "ফিরে";']
+                if where == 'module':
+                    cases.append({'src': prog(['দেখাও "মূল";', 'মডিউল ম = "mods/lib.pakhi";', 'দেখাও "মূল পরে";']), 'files': [('mods/lib.pakhi', prog(body))], 'kind': 'fault stale-name module'})
+                else:
+                    cases.append({'src': prog(body), 'kind': 'fault stale-name'})
     # structural faults
     for s in [['}'], ['যদি মিথ্যা {'], ['অথবা {', '}'], ['ফাং ফ() {'], ['ফাং ফ()', 'দেখাও ১;'], ['লুপ {', '}'], ['ফেরত ১;'], ['ফাং', 'দেখাও ১;'], ['যদি মিথ্যা', 'দেখাও ১;']]:
         cases.append({'src': prog(['দেখাও "আগে";'] + s + ['দেখাও "পরে";']), 'kind': 'structural'})
@@ -760,7 +785,11 @@ def c14_cases(rng, tier):
         paths = rng.sample(['a.pakhi', 'lib/b.pakhi', 'lib/deep/c.pakhi', 'x/মডিউল.pakhi'], nm)
         for i in range(nm):
             body = ['নাম মান = %s;' % bn((i + 2) * 10), 'নাম তালিকা = [মান];', 'ফাং দেখ() {', '    ফেরত "মড%s" + _স্ট্রিং(মান);' % bn(i), '} ফেরত;',
-                    'ফাং বাড়াও() {', '    মান = মান + ১;', '    _লিস্ট-পুশ(তালিকা, মান);', '    ফেরত দেখ();', '} ফেরত;', 'দেখাও "লোড %s";' % bn(i), 'দেখাও _টাইপ(_প্ল্যাটফর্ম);', 'দেখাও _লিস্ট-লেন(তালিকা);']
+                    'ফাং বাড়াও() {', '    মান = মান + ১;', '    _লিস্ট-পুশ(তালিকা, মান);', '    ফেরত দেখ();', '} ফেরত;', 'দেখাও "লোড %s";' % bn(i), 'দেখাও _টাইপ(_প্ল্যাটফর্ম);', 'দেখাও _লিস্ট-লেন(তালিকা);',
+                    # a parameter and a block local spelled like the module's own top-level variable shadow it (inside a module
+                    # every one of these names carries the alias prefix)
+                    'ফাং ছায়া(মান, তালিকা) {', '    নাম ফল = মান * ২;', '    মান = মান + ১০০;', '    ফেরত [ফল, মান, তালিকা];', '} ফেরত;', 'দেখাও ছায়া(৭, "প");', 'দেখাও ছায়া(৮);',
+                    '{', '    নাম মান = ৯৯;', '    দেখাও মান;', '    {', '        মান = মান + ১;', '        দেখাও মান;', '    }', '}', 'দেখাও মান;']
             if rng.random() < 0.7:
                 body.append('দেখাও _রিড-ফাইল(_ডাইরেক্টরি + "data%s.txt");' % bn(i))
                 datafiles.append((dirof(paths[i]) + 'data%s.txt' % bn(i), 'তথ্য %s' % bn(i)))
@@ -776,7 +805,8 @@ def c14_cases(rng, tier):
             mods.append(('app/' + paths[i], prog(body)))
         for i in range(nm):
             main_lines.append('মডিউল %s = "%s";' % (aliases[i], paths[i]))
-            main_lines += ['দেখাও %s/দেখ();' % aliases[i], 'দেখাও %s/বাড়াও();' % aliases[i], 'দেখাও %s/মান;' % aliases[i], 'দেখাও মান;', 'দেখাও দেখ();', 'দেখাও %s/তালিকা;' % aliases[i]]
+            main_lines += ['দেখাও %s/দেখ();' % aliases[i], 'দেখাও %s/বাড়াও();' % aliases[i], 'দেখাও %s/মান;' % aliases[i], 'দেখাও মান;', 'দেখাও দেখ();', 'দেখাও %s/তালিকা;' % aliases[i],
+                           'দেখাও %s/ছায়া(৩, ৪);' % aliases[i], 'দেখাও %s/মান;' % aliases[i]]
         main_lines += ['দেখাও মান;', 'মান = ৫;', 'দেখাও %s/মান;' % aliases[0], 'দেখাও তালিকা;' if rng.random() < 0.3 else 'দেখাও "শেষ";', 'দেখাও _রিড-ফাইল(_ডাইরেক্টরি + "root.txt");']
         cases.append({'src': prog(main_lines), 'files': mods + datafiles, 'kind': 'modules', 'main': 'app/main.pakhi'})
     return cases
